@@ -55,7 +55,7 @@ func init() {
 		assume:  []string{"the call hook reports every call port", "the context argument of error/2 is implementation defined and not compared"},
 		trusted: []string{"TLC", "Engine.tla as the reference semantics", "harness renderer/canonicaliser (jt)"},
 		run: func(c *checkCtx) {
-			for _, cfg := range []string{"GenCatch_" + c.tier + ".cfg", "GenCatch_" + c.tier + "2.cfg"} {
+			for _, cfg := range []string{"GenCatch_" + c.tier + ".cfg", "GenCatch_" + c.tier + "2.cfg", "GenCatch_" + c.tier + "3.cfg"} {
 				r := c.mcHolds("GenCatch", cfg, tlcOpts{})
 				if r.ncases == 0 {
 					infra("GenCatch produced no cases")
